@@ -415,6 +415,9 @@ func installDataStubs(t *StubTable) {
 	t.Native["encoding/json.Marshal"] = func(i *interpreter, caller *frame, fn *ssa.Function, args []value) value {
 		return i.jsonMarshal(args[0])
 	}
+	t.Native["encoding/json.MarshalIndent"] = func(i *interpreter, caller *frame, fn *ssa.Function, args []value) value {
+		return i.jsonMarshal(args[0])
+	}
 	t.Native["encoding/json.Unmarshal"] = func(i *interpreter, caller *frame, fn *ssa.Function, args []value) value {
 		return i.jsonUnmarshal(caller, args[0], args[1])
 	}
